@@ -1,42 +1,807 @@
-//! probe (temporary first version)
-use emmylua_code_analysis::{DiagnosticCode, VirtualWorkspace};
+//! C19 harness: `---@diagnostic disable / disable-next-line / disable-line / enable` scopes.
+//!   c19 corr   --seed S --n N [--corpus DIR]  -> JSON lines: what the analyzer read off the tree (tags), the
+//!                                                actions / file sets it recorded, answers of
+//!                                                is_file_diagnostic_code_disabled on an offset grid, and the
+//!                                                diagnostics of diagnose_file without (d0) and with (d1) the comments
+//!   c19 search --seed S --n N [--corpus DIR]  -> JSON lines: violations of the property oracle (independent,
+//!                                                line based), then {"summary":…}
+//!   c19 one    --text-json '"..."'            -> both of the above for one program (replay)
+use emmylua_code_analysis::{DiagnosticCode, FileId, VirtualWorkspace};
 use emmylua_parser::{LuaAstNode, LuaAstToken, LuaBlock, LuaChunk, LuaComment, LuaDocTagDiagnostic};
+use lsp_types::NumberOrString;
+use rowan::{TextRange, TextSize};
 use serde_json::{Value, json};
+use std::collections::{BTreeMap, BTreeSet, HashSet};
 use std::str::FromStr;
 use tokio_util::sync::CancellationToken;
-use vh_common::Args;
+use vh_common::{Args, Rng, guarded};
+
+const LIB: &str = "---@deprecated\nfunction dep(...) end\n---@param a number\n---@param b number\nfunction need2(a, b) end\n";
+
+/// codes that the generated programs can trigger, plus two that they cannot and one unknown name
+const CODE_NAMES: &[&str] = &[
+    "undefined-global",
+    "unused",
+    "deprecated",
+    "missing-parameter",
+    "assign-type-mismatch",
+    "doc-syntax-error",
+    "type-not-found",
+    "param-type-mismatch",
+    "syntax-error",
+    "need-check-nil",
+    "bogus-code",
+];
+
+fn code_index(c: DiagnosticCode) -> usize {
+    DiagnosticCode::all().iter().position(|x| *x == c).unwrap_or(usize::MAX)
+}
+
+// ------------------------------------------------------------------------------------------ generator
+
+#[derive(Clone, Copy, PartialEq)]
+enum Eol {
+    Lf,
+    CrLf,
+    Cr,
+    Mixed,
+}
+
+struct Gen<'a> {
+    rng: &'a mut Rng,
+    lines: Vec<String>,
+    counter: usize,
+    budget: usize,
+}
+
+impl<'a> Gen<'a> {
+    fn fresh(&mut self) -> usize {
+        self.counter += 1;
+        self.counter
+    }
+
+    fn code_list(&mut self) -> String {
+        // none (= all codes), one, or several codes
+        match self.rng.below(10) {
+            0..=2 => String::new(),
+            3..=6 => format!(": {}", self.rng.pick(CODE_NAMES)),
+            7..=8 => format!(": {}, {}", self.rng.pick(CODE_NAMES), self.rng.pick(CODE_NAMES)),
+            _ => format!(":{},{} , {}", self.rng.pick(CODE_NAMES), self.rng.pick(CODE_NAMES), self.rng.pick(CODE_NAMES)),
+        }
+    }
+
+    fn dashes(&mut self) -> &'static str {
+        if self.rng.chance(1, 5) { "--- " } else { "---" }
+    }
+
+    /// a statement occupying one or more lines (without indentation); most produce diagnostics
+    fn stmt(&mut self) -> Vec<String> {
+        let n = self.fresh();
+        match self.rng.below(16) {
+            0..=3 => vec![format!("g{n}()")],
+            4..=5 => vec![format!("local u{n} = 1")],
+            6 => vec!["dep()".to_string()],
+            7 => {
+                let m = self.fresh();
+                vec![format!("g{n}(); g{m}()")]
+            }
+            8 => vec![format!("local _s{n} = \"é😀中\"; g{n}()")],
+            9 => vec!["need2(1)".to_string()],
+            10 => vec!["dep(".to_string(), format!("  g{n},"), format!("g{n}x)")],
+            11 => vec![format!("local _ok{n} = 1")],
+            12 => vec!["---@type string".to_string(), format!("local _t{n} = 1")],
+            13 => vec!["---@param".to_string(), format!("local function _f{n}() end")],
+            14 => vec![format!("---@type Foo{n}"), format!("local _v{n} = nil")],
+            _ => vec![format!("local _w{n} = g{n} + g{n}y")],
+        }
+    }
+
+    fn push(&mut self, indent: usize, s: &str) {
+        // sometimes no indentation at all, so that nested statements start at column 0
+        let ind = if self.rng.chance(1, 4) { 0 } else { indent };
+        self.lines.push(format!("{}{}", " ".repeat(ind), s));
+    }
+
+    fn block(&mut self, depth: usize) {
+        let indent = depth * 2;
+        let items = self.rng.range(1, 5);
+        for _ in 0..items {
+            if self.budget == 0 {
+                break;
+            }
+            self.budget -= 1;
+            match self.rng.below(20) {
+                0..=5 => {
+                    for l in self.stmt() {
+                        self.push(indent, &l);
+                    }
+                }
+                6..=8 => {
+                    // disable-next-line on its own line, directly followed by statements
+                    let c = format!("{}@diagnostic disable-next-line{}", self.dashes(), self.code_list());
+                    self.push(indent, &c);
+                    let k = self.rng.range(1, 3);
+                    for _ in 0..k {
+                        for l in self.stmt() {
+                            // column 0 matters most here
+                            if self.rng.chance(1, 2) { self.lines.push(l) } else { self.push(indent, &l) }
+                        }
+                    }
+                }
+                9..=10 => {
+                    // trailing disable-line / disable-next-line
+                    let mut ls = self.stmt();
+                    let which = if self.rng.chance(3, 4) { "disable-line" } else { "disable-next-line" };
+                    let c = format!(" {}@diagnostic {}{}", self.dashes(), which, self.code_list());
+                    if let Some(last) = ls.last_mut() {
+                        if !last.starts_with("---") {
+                            last.push_str(&c);
+                        }
+                    }
+                    for l in ls {
+                        self.push(indent, &l);
+                    }
+                    for l in self.stmt() {
+                        if self.rng.chance(1, 2) { self.lines.push(l) } else { self.push(indent, &l) }
+                    }
+                }
+                11..=12 => {
+                    let c = format!("{}@diagnostic disable{}", self.dashes(), self.code_list());
+                    self.push(indent, &c);
+                }
+                13 => {
+                    if self.rng.chance(1, 3) {
+                        let c = format!("---@diagnostic enable: {}", self.rng.pick(CODE_NAMES));
+                        self.push(indent, &c);
+                    } else {
+                        self.lines.push(String::new());
+                    }
+                }
+                14 => self.push(indent, "-- note"),
+                _ => {
+                    if depth >= 3 {
+                        continue;
+                    }
+                    let n = self.fresh();
+                    let kind = self.rng.below(7);
+                    match kind {
+                        0 => self.push(indent, "do"),
+                        1 => self.push(indent, &format!("if g{n}c then")),
+                        2 => self.push(indent, &format!("local function _fn{n}()")),
+                        3 => self.push(indent, &format!("while g{n}c do")),
+                        4 => self.push(indent, "for _ = 1, 2 do"),
+                        5 => self.push(indent, "repeat"),
+                        _ => {
+                            let cl = self.code_list();
+                            self.push(indent, &format!("if g{n}c then ---@diagnostic disable{cl}"))
+                        }
+                    }
+                    self.block(depth + 1);
+                    if (kind == 1 || kind == 6) && self.rng.chance(1, 2) {
+                        if self.rng.chance(1, 2) {
+                            self.push(indent, "else")
+                        } else {
+                            self.push(indent, &format!("elseif g{n}d then"))
+                        }
+                        self.block(depth + 1);
+                    }
+                    if kind == 5 {
+                        self.push(indent, &format!("until g{n}u"));
+                    } else if self.rng.chance(1, 6) {
+                        // a statement right after `end` on the same line
+                        self.push(indent, &format!("end g{n}e()"));
+                    } else {
+                        self.push(indent, "end");
+                    }
+                    // adjacent block directly after
+                    if self.rng.chance(1, 3) {
+                        self.push(indent, "do");
+                        self.block(depth + 1);
+                        self.push(indent, "end");
+                    }
+                }
+            }
+        }
+    }
+}
+
+fn gen_program(rng: &mut Rng) -> (String, Eol) {
+    let eol = match rng.below(20) {
+        0..=10 => Eol::Lf,
+        11..=15 => Eol::CrLf,
+        16 => Eol::Cr,
+        _ => Eol::Mixed,
+    };
+    let budget = rng.range(2, 14);
+    let mut g = Gen { rng, lines: Vec::new(), counter: 0, budget };
+    // a leading file-level comment in a share of the programs
+    match g.rng.below(8) {
+        0 => {
+            let c = format!("---@diagnostic disable{}", g.code_list());
+            g.lines.push(c)
+        }
+        1 => {
+            let c = format!("---@diagnostic disable-next-line{}", g.code_list());
+            g.lines.push(c)
+        }
+        _ => {}
+    }
+    while g.budget > 0 {
+        g.block(0);
+    }
+    let lines = std::mem::take(&mut g.lines);
+    let mut s = String::new();
+    let n = lines.len();
+    for (i, l) in lines.iter().enumerate() {
+        s.push_str(l);
+        let last = i + 1 == n;
+        if last && rng.chance(1, 2) {
+            break;
+        }
+        match eol {
+            Eol::Lf => s.push('\n'),
+            Eol::CrLf => s.push_str("\r\n"),
+            Eol::Cr => s.push('\r'),
+            Eol::Mixed => s.push_str(*rng.pick(&["\n", "\r\n", "\r", "\n"])),
+        }
+    }
+    (s, eol)
+}
+
+// ------------------------------------------------------------------------------------ implementation side
+
+struct Ws {
+    ws: VirtualWorkspace,
+    used: usize,
+}
+
+impl Ws {
+    fn new() -> Ws {
+        let mut ws = VirtualWorkspace::new();
+        ws.def(LIB);
+        Ws { ws, used: 0 }
+    }
+    fn fresh(&mut self) {
+        self.used += 1;
+        if self.used > 150 {
+            *self = Ws::new();
+        }
+    }
+}
+
+#[derive(Clone, Debug, PartialEq, Eq, PartialOrd, Ord)]
+struct Diag {
+    sl: u32,
+    sc: u32,
+    el: u32,
+    ec: u32,
+    code: String,
+    msg: String,
+}
+
+struct TagInfo {
+    kind: usize, // 0 disable, 1 next-line, 2 line, 3 enable, 4 other
+    comment: (u32, u32),
+    block: Option<(u32, u32)>,
+    top: bool,
+    codes: Option<Vec<DiagnosticCode>>,
+}
+
+fn diagnose(ws: &mut Ws, text: &str) -> Result<(FileId, Vec<Diag>), String> {
+    let id = ws.ws.def(text);
+    let ds = ws.ws.analysis.diagnose_file(id, CancellationToken::new()).ok_or("diagnose_file returned None")?;
+    let mut v: Vec<Diag> = ds
+        .into_iter()
+        .map(|d| Diag {
+            sl: d.range.start.line,
+            sc: d.range.start.character,
+            el: d.range.end.line,
+            ec: d.range.end.character,
+            code: match d.code {
+                Some(NumberOrString::String(s)) => s,
+                _ => "?".to_string(),
+            },
+            msg: d.message,
+        })
+        .collect();
+    v.sort();
+    Ok((id, v))
+}
+
+fn tags_of(ws: &Ws, id: FileId) -> Vec<TagInfo> {
+    let db = ws.ws.analysis.compilation.get_db();
+    let tree = match db.get_vfs().get_syntax_tree(&id) {
+        Some(t) => t,
+        None => return vec![],
+    };
+    let chunk = tree.get_chunk_node();
+    let mut out = Vec::new();
+    for tag in chunk.descendants::<LuaDocTagDiagnostic>() {
+        let comment = match tag.ancestors::<LuaComment>().next() {
+            Some(c) => c,
+            None => continue,
+        };
+        let action = match tag.get_action_token() {
+            Some(t) => t.get_text().to_string(),
+            None => continue, // analyze_diagnostic returns early
+        };
+        let kind = match action.as_str() {
+            "disable" => 0,
+            "disable-next-line" => 1,
+            "disable-line" => 2,
+            "enable" => 3,
+            _ => 4,
+        };
+        let block = comment.ancestors::<LuaBlock>().next();
+        let r = comment.get_range();
+        out.push(TagInfo {
+            kind,
+            comment: (r.start().into(), r.end().into()),
+            block: block.as_ref().map(|b| (b.get_range().start().into(), b.get_range().end().into())),
+            top: block.as_ref().map(|b| b.get_parent::<LuaChunk>().is_some()).unwrap_or(false),
+            codes: tag
+                .get_code_list()
+                .map(|l| l.get_codes().map(|c| DiagnosticCode::from_str(c.get_name_text()).unwrap_or(DiagnosticCode::None)).collect()),
+        });
+    }
+    out
+}
+
+fn neutralise(text: &str) -> String {
+    text.replace("@diagnostic", " diagnostic")
+}
+
+// ------------------------------------------------------------------------------------ reference positions
+
+/// independent line table: LSP lines end at "\n", "\r\n", lone "\r"; columns are UTF-16
+struct Lines {
+    pos: Vec<(u32, u32)>, // by byte offset (non-boundaries repeat the previous boundary)
+    eof: (u32, u32),
+}
+
+fn lines_of(text: &str) -> Lines {
+    let mut pos = vec![(0u32, 0u32); text.len() + 1];
+    let (mut line, mut col) = (0u32, 0u32);
+    let chars: Vec<(usize, char)> = text.char_indices().collect();
+    for (i, &(o, c)) in chars.iter().enumerate() {
+        for k in 0..c.len_utf8() {
+            pos[o + k] = (line, col);
+        }
+        let next_is_lf = chars.get(i + 1).map(|x| x.1 == '\n').unwrap_or(false);
+        if c == '\n' || (c == '\r' && !next_is_lf) {
+            line += 1;
+            col = 0;
+        } else {
+            col += c.len_utf16() as u32;
+        }
+    }
+    pos[text.len()] = (line, col);
+    Lines { pos, eof: (line, col) }
+}
+
+// ------------------------------------------------------------------------------------------- the oracle
+
+#[derive(Clone, Copy, PartialEq, Debug)]
+enum Verdict {
+    Must,     // the property demands that the diagnostic is suppressed
+    NoEffect, // this comment must not affect the diagnostic
+    DontCare, // the property text does not decide (straddles the scope, before the comment in its block, …)
+}
+
+fn tag_code_names(t: &TagInfo) -> Option<Vec<String>> {
+    t.codes.as_ref().map(|v| v.iter().map(|c| c.get_name().to_string()).collect())
+}
+
+fn classify(t: &TagInfo, d: &Diag, ln: &Lines, enabled: &BTreeSet<String>) -> (Verdict, &'static str) {
+    let lists = match tag_code_names(t) {
+        None => true,
+        Some(v) => v.iter().any(|c| *c == d.code),
+    };
+    if t.kind >= 3 || !lists {
+        return (Verdict::NoEffect, "other-code");
+    }
+    let ds = (d.sl, d.sc);
+    let de = (d.el, d.ec);
+    let empty = ds == de;
+    if empty && ds == ln.eof {
+        return (Verdict::DontCare, "");
+    }
+    let cs = ln.pos[t.comment.0 as usize];
+    let ce = ln.pos[t.comment.1 as usize];
+    match t.kind {
+        1 => {
+            let last = ce.0 + 1; // the line directly after the comment's last line
+            if ds >= cs && de.0 <= last {
+                (Verdict::Must, "next-line-miss")
+            } else if (if empty { ds < cs } else { de <= cs }) || ds.0 > last {
+                (Verdict::NoEffect, "next-line-leak")
+            } else {
+                (Verdict::DontCare, "")
+            }
+        }
+        2 => {
+            let l = ce.0;
+            if ds.0 == l && de.0 == l {
+                (Verdict::Must, "line-miss")
+            } else if de.0 < l || (!empty && de == (l, 0)) || ds.0 > l {
+                (Verdict::NoEffect, "line-leak")
+            } else {
+                (Verdict::DontCare, "")
+            }
+        }
+        _ => {
+            let b = match t.block {
+                Some(b) => b,
+                None => return (Verdict::NoEffect, "block-leak"),
+            };
+            if t.top && t.codes.is_some() {
+                // file level set: the whole file; an `enable` of the same code is not described by the property
+                if enabled.contains(&d.code) {
+                    return (Verdict::DontCare, "");
+                }
+                return if ds >= ce { (Verdict::Must, "file-miss") } else { (Verdict::DontCare, "") };
+            }
+            let bs = ln.pos[b.0 as usize];
+            let be = ln.pos[b.1 as usize];
+            if ds >= ce && de <= be && (!empty || ds < be) {
+                (Verdict::Must, "block-miss")
+            } else if (if empty { ds < bs } else { de <= bs }) || (if empty { ds > be } else { ds >= be }) {
+                (Verdict::NoEffect, "block-leak")
+            } else {
+                (Verdict::DontCare, "")
+            }
+        }
+    }
+}
+
+#[derive(Default)]
+struct Stats {
+    programs: usize,
+    with_tag_and_diag: usize,
+    tags: [usize; 5],
+    tags_multi_code: usize,
+    tags_no_list: usize,
+    diags: usize,
+    must: usize,
+    no_effect: usize,
+    dont_care: usize,
+    col0_after_scope: usize,
+    empty_range_diags: usize,
+    multi_line_comments: usize,
+    eol: [usize; 4],
+    nested_block_tags: usize,
+    by_code: BTreeMap<String, usize>,
+}
+
+/// run the oracle on one program; returns violations
+fn search_one(ws: &mut Ws, text: &str, st: &mut Stats, out: &mut Vec<Value>) {
+    ws.fresh();
+    let cps: Vec<u32> = text.chars().map(|c| c as u32).collect();
+    let mut report = |sig: &str, what: String| {
+        out.push(json!({"signature": sig, "what": what, "text": text, "cps": cps.clone()}));
+    };
+    let neutral = neutralise(text);
+    let r = guarded(|| {
+        let (_, d0) = diagnose(ws, &neutral)?;
+        let (id, d1) = diagnose(ws, text)?;
+        let tags = tags_of(ws, id);
+        Ok::<_, String>((d0, d1, tags))
+    });
+    let (d0, d1, tags) = match r {
+        Ok(Ok(x)) => x,
+        Ok(Err(e)) => {
+            report("no-result", e);
+            return;
+        }
+        Err(e) => {
+            *ws = Ws::new();
+            report("crash", format!("analysis panicked: {e}"));
+            return;
+        }
+    };
+    let ln = lines_of(text);
+    st.programs += 1;
+    if !tags.is_empty() && !d0.is_empty() {
+        st.with_tag_and_diag += 1;
+    }
+    let mut enabled = BTreeSet::new();
+    for t in &tags {
+        st.tags[t.kind] += 1;
+        match &t.codes {
+            None => st.tags_no_list += 1,
+            Some(v) if v.len() > 1 => st.tags_multi_code += 1,
+            _ => {}
+        }
+        if t.kind == 0 && !t.top {
+            st.nested_block_tags += 1;
+        }
+        if t.kind == 3 {
+            for c in tag_code_names(t).unwrap_or_default() {
+                enabled.insert(c);
+            }
+        }
+        if ln.pos[t.comment.0 as usize].0 != ln.pos[t.comment.1 as usize].0 {
+            st.multi_line_comments += 1;
+        }
+    }
+    let mut c1: BTreeMap<&Diag, usize> = BTreeMap::new();
+    for d in &d1 {
+        *c1.entry(d).or_default() += 1;
+    }
+    let mut c0: BTreeMap<&Diag, usize> = BTreeMap::new();
+    for d in &d0 {
+        *c0.entry(d).or_default() += 1;
+    }
+    for (d, n0) in &c0 {
+        st.diags += 1;
+        *st.by_code.entry(d.code.clone()).or_default() += 1;
+        if (d.sl, d.sc) == (d.el, d.ec) {
+            st.empty_range_diags += 1;
+        }
+        let mut must: Option<&'static str> = None;
+        let mut dont = false;
+        let mut leak_sig = "leak";
+        for t in &tags {
+            let (v, sig) = classify(t, d, &ln, &enabled);
+            match v {
+                Verdict::Must => must = Some(sig),
+                Verdict::DontCare => dont = true,
+                Verdict::NoEffect => {
+                    // nearest candidate explanation if it turns out to be missing
+                    if sig != "other-code" {
+                        let after = match t.kind {
+                            1 => d.sl == ln.pos[t.comment.1 as usize].0 + 2,
+                            2 => d.sl == ln.pos[t.comment.1 as usize].0 + 1,
+                            _ => false,
+                        };
+                        if after {
+                            leak_sig = sig;
+                            if d.sc == 0 {
+                                st.col0_after_scope += 1;
+                            }
+                        } else if leak_sig == "leak" {
+                            leak_sig = sig;
+                        }
+                    } else if leak_sig == "leak" {
+                        leak_sig = "other-code";
+                    }
+                }
+            }
+        }
+        let n1 = c1.get(d).copied().unwrap_or(0);
+        if let Some(sig) = must {
+            st.must += 1;
+            if n1 != 0 {
+                report(sig, format!("{} at {}:{}-{}:{} lies in the scope of a suppression comment that lists it but is still reported", d.code, d.sl, d.sc, d.el, d.ec));
+            }
+        } else if dont {
+            st.dont_care += 1;
+        } else {
+            st.no_effect += 1;
+            if n1 != *n0 {
+                report(leak_sig, format!("{} at {}:{}-{}:{} is outside every suppression scope that lists it but is reported {} time(s) instead of {}", d.code, d.sl, d.sc, d.el, d.ec, n1, n0));
+            }
+        }
+    }
+    for (d, n1) in &c1 {
+        if !c0.contains_key(d) && !enabled.contains(&d.code) {
+            report("new-diagnostic", format!("{} at {}:{}-{}:{} appears {} time(s) only when the suppression comments are present", d.code, d.sl, d.sc, d.el, d.ec, n1));
+        }
+    }
+}
+
+// --------------------------------------------------------------------------------------- correspondence
+
+fn observe(ws: &mut Ws, text: &str) -> Value {
+    ws.fresh();
+    let cps: Vec<u32> = text.chars().map(|c| c as u32).collect();
+    let neutral = neutralise(text);
+    let r = guarded(|| {
+        let (id0, d0) = diagnose(ws, &neutral)?;
+        let (id, d1) = diagnose(ws, text)?;
+        Ok::<_, String>((id0, d0, id, d1))
+    });
+    let (id0, d0, id, d1) = match r {
+        Ok(Ok(x)) => x,
+        Ok(Err(e)) => return json!({"t": cps, "error": e}),
+        Err(e) => {
+            *ws = Ws::new();
+            return json!({"t": cps, "error": format!("panic: {e}")});
+        }
+    };
+    let tags = tags_of(ws, id);
+    let db = ws.ws.analysis.compilation.get_db();
+    let idx = db.get_diagnostic_index();
+    let len = text.len() as u32;
+    // actions as recorded
+    let mut acts = Vec::new();
+    if let Some(v) = idx.get_diagnostics_actions(id) {
+        for a in v {
+            let r = a.get_range();
+            let code: i64 = match a.get_code() {
+                Some(c) => code_index(c) as i64,
+                None => -1,
+            };
+            acts.push(json!([u32::from(r.start()), u32::from(r.end()), code, a.is_disable()]));
+        }
+    }
+    // code universe
+    let mut univ: BTreeSet<usize> = BTreeSet::new();
+    for t in &tags {
+        for c in t.codes.iter().flatten() {
+            univ.insert(code_index(*c));
+        }
+    }
+    let to_code = |name: &str| code_index(DiagnosticCode::from_str(name).unwrap_or(DiagnosticCode::None));
+    for d in d0.iter().chain(d1.iter()) {
+        univ.insert(to_code(&d.code));
+    }
+    univ.insert(code_index(DiagnosticCode::UnreachableCode));
+    let all = DiagnosticCode::all();
+    let fdis: Vec<usize> = univ.iter().copied().filter(|c| idx.is_file_disabled(&id, &all[*c])).collect();
+    let fen: Vec<usize> = univ.iter().copied().filter(|c| idx.is_file_enabled(&id, &all[*c])).collect();
+    // offsets of interest
+    let ln = lines_of(text);
+    let mut offs: BTreeSet<u32> = BTreeSet::new();
+    offs.insert(0);
+    offs.insert(len);
+    let mut cand: Vec<u32> = Vec::new();
+    for o in 1..=len {
+        if ln.pos[o as usize].1 == 0 && ln.pos[o as usize].0 != ln.pos[(o - 1) as usize].0 {
+            cand.push(o); // line start
+        }
+    }
+    for t in &tags {
+        cand.extend_from_slice(&[t.comment.0, t.comment.1]);
+        if let Some(b) = t.block {
+            cand.extend_from_slice(&[b.0, b.1]);
+        }
+    }
+    // keep the grid small: offsets around the tags first, then line starts near them
+    let mut near: Vec<u32> = Vec::new();
+    for t in &tags {
+        near.extend_from_slice(&[t.comment.0, t.comment.1]);
+    }
+    cand.sort_by_key(|o| near.iter().map(|n| n.abs_diff(*o)).min().unwrap_or(0));
+    for o in cand {
+        if offs.len() >= 16 {
+            break;
+        }
+        for d in [0i64, -1, 1] {
+            let x = o as i64 + d;
+            if x >= 0 && x <= len as i64 + 1 {
+                offs.insert(x as u32);
+            }
+        }
+    }
+    let offs: Vec<u32> = offs.into_iter().collect();
+    let qcodes: Vec<usize> = univ.iter().copied().take(4).collect();
+    let mut q = Vec::new();
+    for (i, &a) in offs.iter().enumerate() {
+        for &b in offs.iter().skip(i) {
+            let range = TextRange::new(TextSize::from(a), TextSize::from(b));
+            for &c in &qcodes {
+                let r = idx.is_file_diagnostic_code_disabled(&id, &all[c], &range);
+                q.push(json!([a, b, c, r]));
+            }
+        }
+    }
+    // diagnostics as byte ranges
+    let conv = |fid: FileId, ds: &Vec<Diag>| -> Option<Vec<Value>> {
+        let doc = db.get_vfs().get_document(&fid)?;
+        let mut v = Vec::new();
+        for d in ds {
+            let r = doc.to_rowan_range(lsp_types::Range {
+                start: lsp_types::Position { line: d.sl, character: d.sc },
+                end: lsp_types::Position { line: d.el, character: d.ec },
+            })?;
+            v.push((u32::from(r.start()), u32::from(r.end()), to_code(&d.code)));
+        }
+        v.sort();
+        Some(v.into_iter().map(|(a, b, c)| json!([a, b, c])).collect())
+    };
+    let d0b = conv(id0, &d0);
+    let d1b = conv(id, &d1);
+    let has_enable = tags.iter().any(|t| t.kind == 3);
+    let e2e = d0b.is_some() && d1b.is_some() && !has_enable;
+    let tagv: Vec<Value> = tags
+        .iter()
+        .map(|t| {
+            json!({"k": t.kind, "c": [t.comment.0, t.comment.1], "b": t.block.map(|b| vec![b.0, b.1]), "top": t.top,
+                   "codes": t.codes.as_ref().map(|v| v.iter().map(|c| code_index(*c)).collect::<Vec<_>>())})
+        })
+        .collect();
+    json!({"t": cps, "text": text, "tags": tagv, "acts": acts, "univ": univ.iter().collect::<Vec<_>>(), "fdis": fdis, "fen": fen,
+           "q": q, "d0": d0b.unwrap_or_default(), "d1": d1b.unwrap_or_default(), "e2e": e2e})
+}
+
+// ------------------------------------------------------------------------------------------------- main
+
+fn corpus(dir: &str) -> Vec<String> {
+    let mut v = Vec::new();
+    if let Ok(rd) = std::fs::read_dir(dir) {
+        let mut paths: Vec<_> = rd.filter_map(|e| e.ok()).map(|e| e.path()).filter(|p| p.extension().map(|x| x == "json").unwrap_or(false)).collect();
+        paths.sort();
+        for p in paths {
+            if let Ok(s) = std::fs::read_to_string(&p) {
+                if let Ok(Value::Array(items)) = serde_json::from_str::<Value>(&s) {
+                    for it in items {
+                        if let Some(t) = it.get("text").and_then(|t| t.as_str()) {
+                            v.push(t.to_string());
+                        }
+                    }
+                }
+            }
+        }
+    }
+    v
+}
 
 fn main() {
     let args = Args::parse();
-    let t: String = serde_json::from_str(&args.str("text-json", "\"\"")).unwrap();
-    let mut ws = VirtualWorkspace::new();
-    ws.def("---@deprecated\nfunction dep() end\n---@param a number\n---@param b number\nfunction need2(a, b) end\n");
-    let id = ws.def(&t);
-    let ds = ws.analysis.diagnose_file(id, CancellationToken::new());
-    let db = ws.analysis.compilation.get_db();
-    let doc = db.get_vfs().get_document(&id).unwrap();
-    for d in ds.unwrap_or_default() {
-        let r = doc.to_rowan_range(d.range);
-        println!("{:?} {:?} {:?} {}", d.code, d.range, r, d.message);
-    }
-    let idx = db.get_diagnostic_index();
-    if let Some(acts) = idx.get_diagnostics_actions(id) {
-        for a in acts {
-            println!("action {:?} {:?} disable={}", a.get_range(), a.get_code(), a.is_disable());
+    let seed = args.u64("seed", 1);
+    let n = args.usize("n", 100);
+    let dir = args.str("corpus", "/verif/corpus/C19");
+    let mut rng = Rng::new(seed ^ 0xC19);
+    let mut ws = Ws::new();
+    match args.cmd.as_str() {
+        "corr" => {
+            for t in corpus(&dir) {
+                println!("{}", observe(&mut ws, &t));
+            }
+            for _ in 0..n {
+                let (t, _) = gen_program(&mut rng);
+                println!("{}", observe(&mut ws, &t));
+            }
         }
-    }
-    let tree = db.get_vfs().get_syntax_tree(&id).unwrap();
-    let chunk = tree.get_chunk_node();
-    for tag in chunk.descendants::<LuaDocTagDiagnostic>() {
-        let comment = tag.ancestors::<LuaComment>().next().unwrap();
-        let block = comment.ancestors::<LuaBlock>().next();
-        let v: Value = json!({
-            "action": tag.get_action_token().map(|t| t.get_text().to_string()),
-            "comment": format!("{:?}", comment.get_range()),
-            "block": block.as_ref().map(|b| format!("{:?}", b.get_range())),
-            "file": block.as_ref().map(|b| b.get_parent::<LuaChunk>().is_some()),
-            "codes": tag.get_code_list().map(|l| l.get_codes().map(|c| DiagnosticCode::from_str(c.get_name_text()).unwrap().get_name().to_string()).collect::<Vec<_>>()),
-        });
-        println!("tag {}", v);
+        "search" => {
+            let mut out = Vec::new();
+            let mut st = Stats::default();
+            let mut distinct: HashSet<String> = HashSet::new();
+            let fixed = corpus(&dir);
+            let nfixed = fixed.len();
+            let mut cases = 0usize;
+            for (i, (t, eol)) in fixed.into_iter().map(|t| (t, Eol::Lf)).chain((0..n).map(|_| gen_program(&mut rng))).enumerate() {
+                let before = st.with_tag_and_diag;
+                search_one(&mut ws, &t, &mut st, &mut out);
+                cases += 1;
+                if st.with_tag_and_diag > before {
+                    distinct.insert(t.clone());
+                }
+                if i >= nfixed {
+                    st.eol[eol as usize] += 1;
+                }
+                if out.len() > 60 {
+                    break;
+                }
+            }
+            for v in &out {
+                println!("{}", v);
+            }
+            println!(
+                "{}",
+                json!({"summary": {"cases": cases, "analysed": st.programs, "distinct_nontrivial": distinct.len(), "corpus": nfixed,
+                    "tags": {"disable": st.tags[0], "disable-next-line": st.tags[1], "disable-line": st.tags[2], "enable": st.tags[3], "other": st.tags[4],
+                             "without_code_list": st.tags_no_list, "several_codes": st.tags_multi_code, "disable_in_nested_block": st.nested_block_tags,
+                             "multi_line_comment": st.multi_line_comments},
+                    "diagnostics_without_comments": st.diags, "demanded_suppressed": st.must, "demanded_unaffected": st.no_effect, "undecided_by_property": st.dont_care,
+                    "column0_on_first_line_after_scope": st.col0_after_scope, "empty_range_diagnostics": st.empty_range_diags,
+                    "eol": {"lf": st.eol[0], "crlf": st.eol[1], "cr": st.eol[2], "mixed": st.eol[3]}, "by_code": st.by_code}})
+            );
+        }
+        "one" => {
+            let t: String = serde_json::from_str(&args.str("text-json", "\"\"")).unwrap_or_default();
+            println!("{}", observe(&mut ws, &t));
+            let mut out = Vec::new();
+            let mut st = Stats::default();
+            search_one(&mut ws, &t, &mut st, &mut out);
+            for v in &out {
+                println!("{}", v);
+            }
+        }
+        _ => {
+            eprintln!("usage: c19 corr|search|one");
+            std::process::exit(2);
+        }
     }
 }
